@@ -52,10 +52,10 @@ DevEnabled(d, n, o, k, ca) ==
     \* inserted bare right after `cmd `, a name starting with `=` or `:` turns the line into Python
     [] d = "Dev_LeadingAssignBare"     -> /\ o \in {"none", "sq", "dq"}
                                           /\ \/ n[1] \in {"eq", "colon"}
-                                             \/ Len(n) >= 2 /\ n[2] = "eq" /\ n[1] \in {"dash", "at", "pct", "caret"}   \* `c0 -=x` is an augmented assignment
+                                             \/ (IF Len(n) >= 2 THEN n[2] = "eq" /\ n[1] \in {"dash", "at", "pct", "caret"} ELSE FALSE)   \* `c0 -=x` is an augmented assignment
     \* a `~` at the start of the name or right after `=` is expanded to the home directory when the
     \* name is inserted in plain (non-raw) quotes
-    [] d = "Dev_TildeExpandedInQuotes" -> \E i \in 1..Len(n) : n[i] = "tilde" /\ (i = 1 \/ n[i - 1] = "eq")
+    [] d = "Dev_TildeExpandedInQuotes" -> \E i \in 1..Len(n) : n[i] = "tilde" /\ (IF i = 1 THEN TRUE ELSE n[i - 1] = "eq")
     [] d = "Dev_BangUnquoted"          -> Has(n, "bang") /\ o \in {"none", "sq", "dq"}
     [] d = "Dev_MixedQuotesRaw"        -> Has(n, "sq") /\ Has(n, "dq") /\ (Has(n, "dl") \/ Has(n, "bs"))
     [] d = "Dev_ControlWithDollar"     -> HasAny(n, Ctrl) /\ Has(n, "dl") /\ o \in {"none", "sq", "dq"}
